@@ -7,7 +7,11 @@ Depending on the service_type_ident different types of body classes are instanti
 
 from __future__ import annotations
 
-from xknx.exceptions import CouldNotParseKNXIP, IncompleteKNXIPFrame
+from xknx.exceptions import (
+    ConversionError,
+    CouldNotParseKNXIP,
+    IncompleteKNXIPFrame,
+)
 
 from .body import KNXIPBody
 from .connect_request import ConnectRequest
@@ -146,7 +150,14 @@ class KNXIPFrame:
             raise CouldNotParseKNXIP(
                 f"KNXIPServiceType not implemented: {header.service_type_ident.name}"
             )
-        body.from_knx(raw_body)
+        try:
+            body.from_knx(raw_body)
+        except (IndexError, ValueError, ConversionError) as err:
+            # raised deep inside the body parsers (indexing into a truncated
+            # structure, enum lookups of undefined codes, address parsing)
+            raise CouldNotParseKNXIP(
+                f"Error parsing {header.service_type_ident.name} body: {err!r}"
+            ) from err
         return KNXIPFrame(header=header, body=body), data[header.total_length :]
 
     def to_knx(self) -> bytes:
